@@ -42,6 +42,8 @@ def run(c):
     c.guard("states_with_median_below_best_observation", below_max)
     c.guard("self_events", self_edges)
     c.guard("weight_vectors", len(weights))
+    c.guard("total_weights_divisible_by_3", len([w for w in weights if sum(w) % 3 == 0]))
+    c.guard("total_weights_not_divisible_by_3", len([w for w in weights if sum(w) % 3 != 0]))
     keys = ("edges", "applied", "skipped", "distinct_pre", "distinct_edges", "walks", "walk_steps", "ops", "mismatch_count")
     return c.finish("model_checking", dict(
         states=res.distinct, transitions=res.generated,
